@@ -414,9 +414,26 @@ class Exec:
         return self.ev_many(e.elts, st, fr, lambda vs, s: self.ok(SSet(vs), s))
 
     def ev_Dict(self, e, st, fr):
+        "dict display: {k: v, ...} and {**d, ...}; later entries override earlier ones"
         if not e.keys:
             return self.ok(self.C.new_dict(st), st)
-        raise Unsupported('dict display')
+        exprs = [x for pair in zip(e.keys, e.values) for x in pair if x is not None]
+
+        def k(vals, s):
+            d = self.C.new_dict(s)
+            vi = iter(vals)
+            for key in e.keys:
+                if key is None:
+                    src = next(vi)
+                    if not (isinstance(src, SRef) and src.cname == 'dict'):
+                        raise Unsupported('** of %r in a dict display' % (src,))
+                    outs = self.B.b_dict_update(d, [src], {}, s, fr)
+                    s = outs[0].st
+                else:
+                    kv, vv = next(vi), next(vi)
+                    self.C.dict_store(s, d, kv, vv)
+            return self.ok(d, s)
+        return self.ev_many(exprs, st, fr, k)
 
     def ev_JoinedStr(self, e, st, fr):
         # f-string: opaque string; evaluate the pieces for their effects / exceptions
